@@ -386,5 +386,13 @@ func Specs() map[string]*PropSpec {
 		er("x/evm/types", "VerifC06_SignersIgnoreFromField"))
 	add("C10", []string{"./x/erc20"}, "IBC middleware OnTimeoutPacket / OnAcknowledgementPacket with the ICS-20 refund and the keeper's re-conversion each failing or not: the callback returns an error exactly when one of them fails",
 		er("x/erc20", "VerifC10_IbcCallbacksPropagateFailure"))
+	add("C07", nil, "the real EVMConfig against Keeper.GetBaseFee for any base fee, height, activation height and no-base-fee flag: the base fee execution refunds with equals the one the ante handler charged with",
+		er("x/evm/keeper", "VerifC07_ConfigBaseFeeIsTheAnteBaseFee"))
+	add("C16", nil, "the precompile's delegation query against the real native Query/Delegation over the same keeper state for five (tokens, total shares, shares) states of exact and slashed validators, delegation present or not",
+		ps("VerifC16_DelegationAfterSlash"))
+	add("C14", nil, "the wrapped bank Query/AllBalances over two denominations, each with or without an (enabled or disabled) token pair, arbitrary native and token balances: a valid coin set with native + tokens per denomination",
+		er("x/bank/keeper", "VerifC14_AllBalancesQuery"))
+	add("C18", []string{"./rpc/backend"}, "the JSON-RPC block unwrap (EthMsgsFromTendermintBlock) over 1-2 envelopes of 1-3 messages each (the three transaction types, possibly mixed with another message): every wrapped transaction is returned, in order, with its own hash recorded",
+		er("rpc/backend", "VerifC18_BlockUnwrapsEveryMessage"))
 	return m
 }
